@@ -1,6 +1,6 @@
 (* C17: addressing by index and by coordinate, element-wise operators, histories of set operations. *)
 From Coq Require Import List ZArith QArith Qabs Bool Lia Lqa.
-From SX Require Import Lib.Py Lib.QCheck Model.Lattice Proofs.C17_Index.
+From SX Require Import Lib.Py Lib.QCheck Gen.GenLattice Model.Lattice Proofs.C17_Index.
 Import ListNotations.
 
 Section GridProofs.
@@ -9,7 +9,7 @@ Section GridProofs.
 
   (* ---- by index ------------------------------------------------------------------------------------------ *)
   Lemma valid1_iff i a : valid1 i a = true <-> (0 <= i < Z.of_nat (npts a))%Z.
-  Proof. unfold valid1. rewrite andb_true_iff, Z.leb_le, Z.ltb_lt. tauto. Qed.
+  Proof. unfold valid1, gen_valid1. rewrite andb_true_iff, Z.leb_le, Z.ltb_lt. tauto. Qed.
 
   Lemma is_valid_iff (L : lattice) i j k :
     is_valid_index V L i j k = true <->
@@ -50,19 +50,19 @@ Section GridProofs.
     apply Nat.eqb_eq in E1, E2, E3. subst. congruence.
   Qed.
 
+  Lemma coord_bad_iff i n : gen_coord_bad i n = true <-> (i < 0 \/ n <= i)%Z.
+  Proof. unfold gen_coord_bad. rewrite orb_true_iff, Z.ltb_lt, Z.leb_le. tauto. Qed.
+
   Lemma coord1_outside i a : (i < 0 \/ Z.of_nat (npts a) <= i)%Z -> coord1 i a = Err ValueError.
   Proof.
-    intros H. unfold coord1.
-    destruct ((i <? 0)%Z || (i >=? Z.of_nat (npts a))%Z) eqn:E; [reflexivity|].
-    apply orb_false_iff in E. destruct E as [E1 E2]. apply Z.ltb_ge in E1. rewrite Z.geb_leb in E2.
-    apply Z.leb_gt in E2. lia.
+    intros H. unfold coord1. apply coord_bad_iff in H. rewrite H. reflexivity.
   Qed.
   Lemma coord1_inside (i : nat) a : (i < npts a)%nat -> coord1 (Z.of_nat i) a = Ok (nth i (avals a) 0%Q).
   Proof.
     intros H. unfold coord1.
-    assert (E : ((Z.of_nat i <? 0)%Z || (Z.of_nat i >=? Z.of_nat (npts a))%Z) = false).
-    { apply orb_false_iff. split; [apply Z.ltb_ge; lia|]. rewrite Z.geb_leb. apply Z.leb_gt. lia. }
-    rewrite E, Nat2Z.id. unfold npts in H.
+    destruct (gen_coord_bad (Z.of_nat i) (Z.of_nat (npts a))) eqn:E.
+    { apply coord_bad_iff in E. lia. }
+    rewrite Nat2Z.id. unfold npts in H.
     rewrite (nth_error_nth' (avals a) 0%Q H). reflexivity.
   Qed.
 
